@@ -261,6 +261,18 @@ def run_input(ctx, i):
                 ctx.check(not [k for k in ("D", "F", "H") if not relclose(q[k], a[k], 1e-8)], "formalism.values", via="preloads.use_w_tilde=%s" % flag, **W0)
             except aa.exc.InversionException:
                 ctx.skipped["formalism:InversionException"] += 1
+        # every combination of the two switches yields a working inversion with the same values (the remaining ones: the settings
+        # ask for the mapping formalism while the preloads carry a flag)
+        st_m = aa.SettingsInversion(use_w_tilde=False, use_positive_only_solver=positive, no_regularization_add_to_curvature_diag_value=1e-3)
+        for flag in (None, False, True):
+            via = "settings.use_w_tilde=False, preloads.use_w_tilde=%s" % flag
+            try:
+                q = outputs(aa, aa.Inversion(dataset=twin(), linear_obj_list=objs, settings=st_m, preloads=aa.Preloads(use_w_tilde=flag)))
+                ctx.check(not [k for k in ("D", "F", "H") if not relclose(q[k], a[k], 1e-8)], "formalism.values", via=via, **W0)
+            except aa.exc.InversionException:
+                ctx.skipped["formalism:InversionException"] += 1
+            except Exception as e:
+                ctx.check(False, "formalism.values", via=via, exception=repr(e)[:300], **W0)
         # mismatching noise map must be rejected
         other = case["noise"].copy()
         other[~case["m"]] = other[~case["m"]] * 1.5
